@@ -175,3 +175,30 @@ Fixpoint t_ops (ops : list aop) (T : rtree) : res rtree :=
                  | Err e => Err e | Panic n => Panic n | OutOfFuel => OutOfFuel
                  end
   end.
+
+(* ------------------------------------------------------------------ operands that are nodes of other trees *)
+(* the five operations that take an operand, the operand given as a tree (what the handle points
+   at: for Entry::from_str / Relation::from_str a node INSIDE the tree the text parsed to) *)
+Inductive top : Type :=
+| TPush (E : rtree) | TInsert (i : nat) (E : rtree) | TReplace (i : nat) (E : rtree)
+| TEPush (i : nat) (R : rtree) | TEReplace (i j : nat) (R : rtree).
+Definition tt_op (o : top) (T : rtree) : res rtree :=
+  match o with
+  | TPush E => Ok (relations_insert_green fixed T (count_if is_entry (children T)) E)
+  | TInsert i E => Ok (relations_insert_green fixed T i E)
+  | TReplace i E =>
+      match entry_pos T i with
+      | Some ci => Ok (set_children (replace_at ci E (children T)) T)
+      | None => Panic 40
+      end
+  | TEPush i R =>
+      match entry_pos T i with
+      | Some ci => Ok (upd_path T [ci] (fun E => entry_push_green E R))
+      | None => out_of_range
+      end
+  | TEReplace i j R =>
+      match rel_pos T i j with
+      | Some (ci, cj) => Ok (upd_path T [ci; cj] (fun old => dressed old R))
+      | None => match entry_pos T i with Some _ => Panic 46 | None => out_of_range end
+      end
+  end.
